@@ -1,7 +1,9 @@
 #!/bin/bash
-# MANIFEST.setup_cmd — offline. Builds the third-party rlibs (bytes, nom, tracing, ahash, tokio, chrono …) with
-# Verus's pinned toolchain into /verif/.deps. The two repository crates are never cached: every check
-# re-splices and re-verifies them from /repo's current working tree.
+# MANIFEST.setup_cmd — offline. (1) third-party rlibs (bytes, nom, tracing, ahash, tokio, chrono …) built with Verus's pinned
+# toolchain into /verif/.deps; (2) the /repo-independent support crates (assumed contracts vx_base, proved vocabulary vx_spec,
+# tokio stand-in) verified + exported into /verif/.cache; (3) the native build caches of the replay crate and the conformance
+# harness warmed (third-party crates only matter; the repository crates are rebuilt from /repo's working tree by every check).
+# The two repository crates are never cached: every check re-splices and re-verifies them from /repo's current working tree.
 set -euo pipefail
 cd "$(dirname "$0")"
 export CARGO_NET_OFFLINE=true
@@ -10,9 +12,20 @@ S=$(mktemp -d /var/tmp/vx-setup.XXXXXX)
 trap 'rm -rf "$S"' EXIT
 rsync -a --exclude target --exclude .git /repo/ "$S/repo/"
 ( cd "$S/repo" && cargo +1.98.1 build --offline -p mpd_client --features chrono 2>&1 | tail -2 )
-rm -rf "$V/.deps" && mkdir -p "$V/.deps"
+rm -rf "$V/.deps" && mkdir -p "$V/.deps" "$V/.cache"
 cp "$S"/repo/target/debug/deps/*.rlib "$S"/repo/target/debug/deps/*.so "$V/.deps/" 2>/dev/null || true
 rm -f "$V"/.deps/libmpd_protocol-* "$V"/.deps/libmpd_client-*
-ls "$V/.deps" | wc -l
-# replay crate (native, repository toolchain) is built on demand by the checks
+rm -rf "$S/repo/target"
+python3 tools/runner.py --build-support
+python3 - <<'PY'
+import sys, os, tempfile, shutil
+sys.path.insert(0, '/verif/tools')
+import runner as R, replay as RP, conformance as CF
+scratch = tempfile.mkdtemp(prefix='vx-warm-', dir='/var/tmp')
+try:
+    b, err = RP.build(scratch); print('replay crate:', 'ok' if b else 'FAILED ' + err[-300:])
+    e, err = CF.build_conf(scratch); print('conformance harness:', 'ok' if e else 'FAILED ' + err[-300:])
+finally:
+    shutil.rmtree(scratch, ignore_errors=True)
+PY
 echo "setup ok"
